@@ -3,7 +3,7 @@
 import glob, json, os, re
 HERE = os.path.dirname(os.path.abspath(__file__))
 rows = []
-for d in sorted(glob.glob(os.path.join(HERE, "seeded", "C*-m*"))):
+for d in sorted(glob.glob(os.path.join(HERE, "seeded", "C*-*m[0-9]"))):
     name = os.path.basename(d)
     am = json.load(open(os.path.join(d, "agent_meta.json"))) if os.path.exists(os.path.join(d, "agent_meta.json")) else {}
     conf = open(os.path.join(d, "confirm.txt")).read() if os.path.exists(os.path.join(d, "confirm.txt")) else ""
